@@ -59,8 +59,8 @@ def _tag_syms(tag, spec):
     if ptype == "n":
         return [[tag, "NUM"]]
     if ptype == "s":
-        return [[tag, "STR"]]
-    return [[tag, "STR"], [tag, "LIST2"]]
+        return [[tag, "STR"], [tag, "ML"]]
+    return [[tag, "STR"], [tag, "LIST2"], [tag, "ML"]]
 
 
 def command_forms(name, max_slots=None, max_forms=None):
